@@ -210,12 +210,17 @@ def evmgr_order(c):
     n = c.choose([0, 1, 2, 3, 4], 'n_registrations')
     seq = c.choose(list(itertools.product([0, 1, 2], repeat=n)), 'registrations')
     raising = c.choose([None, 0, 1, 2], 'raising_listener')
+    # a listener may take itself off the list while it runs (a one-shot hook): the others still run, in order
+    one_shot = c.choose([None, 0, 1, 2], 'listener_that_deregisters_itself') if raising is None else None
     ran = []
     boom = RuntimeError('x')
+    box = {}
 
     def mk(i):
         def listener(ctx):
             ran.append(i)
+            if i == one_shot:
+                box['mgr'].del_listener('ev', ls[i])
             if i == raising:
                 raise boom
         listener._pyvc_native = True
@@ -226,6 +231,7 @@ def evmgr_order(c):
         ran.append('other')
     other._pyvc_native = True
     mgr = c.call(EventManager, None)
+    box['mgr'] = mgr
     c.call(mgr.add_listener, 'other_event', other)
     for i in seq:
         c.call(mgr.add_listener, 'ev', ls[i])
@@ -238,6 +244,11 @@ def evmgr_order(c):
         want = order
         c.check('returns', out.returned, detail=repr(out))
     c.check('ran_in_registration_order_once', ran == want, detail=(seq, ran, want))
+    if one_shot is not None and out.returned:
+        del ran[:]
+        o2 = c.run(mgr.fire_event, 'ev', object())
+        c.check('deregistered_listener_does_not_run_again', o2.returned and ran == [i for i in order if i != one_shot],
+                detail=(seq, one_shot, ran))
 
 
 @obligation('C14.inheritance.service_listeners', targets=['spyne.service:ServiceBaseMeta.__get_base_event_handlers'],
